@@ -323,7 +323,7 @@ func init() {
 		c.DistN("seeds_modfile", len(mods))
 		budget := time.Duration(c.Pick(30, 600)) * time.Second
 		start := time.Now()
-		maxIter := c.Pick(12000, 400000)
+		maxIter := c.Pick(8000, 400000)
 		for it := 0; it < maxIter && time.Since(start) < budget; it++ {
 			c.R.Evaluations++
 			switch it % 4 {
